@@ -163,6 +163,24 @@ theorem unqualified_spec {cat : Cat} {st : St} {tn : List (String × StdTable)} 
       | some s => simpa [hg] using h
     | cons R2 r2 => simpa [hf] using h
 
+/-- **an aggregate without column argument**: one anonymous source per upstream table of every FROM / JOIN item -/
+theorem anon_loop {cat : Cat} {st : St} : ∀ (ts : List StdTable) (rs : List Rel),
+    All2 (fun t R => ∃ L, lookup cat st.subq st.withT t = some L ∧ Denotes L R) ts rs →
+    ∀ (st1 : St), Same st st1 →
+    ∃ st2, anonSources cat ts st1 = .ok (rs.flatMap (fun R => (relTables R).map fun t => (⟨t.1, t.2, none⟩ : SrcCol)), st2) ∧ Same st st2
+  | [], [], _, st1, hs => ⟨st1, by simp [anonSources], hs⟩
+  | [], _ :: _, h, _, _ => nomatch h
+  | _ :: _, [], h, _, _ => nomatch h
+  | t :: ts, R :: rs, h, st1, hs => by
+    cases h with
+    | cons hd tl =>
+      obtain ⟨L, hl, hden⟩ := hd
+      have hg := getTableLineage_lookup cat t st1
+      rw [hs.1, hs.2, hl] at hg
+      obtain ⟨st2, hg1, hg2⟩ := hg
+      obtain ⟨st3, e3, s3⟩ := anon_loop ts rs tl st2 (hs.trans hg2)
+      exact ⟨st3, by simp [anonSources, hg1, e3, bind, Except.bind, pure, Except.pure, hden.tables], s3⟩
+
 /-- the three outcomes of a step: the specified value with the stores untouched, the analysis error, or no claim -/
 def Agrees {α : Type} (st : St) (spec : Except FErr α) (model : Except Err (α × St)) : Prop :=
   match spec with
@@ -179,7 +197,13 @@ theorem ref_spec {cat : Cat} {st : St} {tn : List (String × StdTable)} {scope :
   | some k => cases t <;> cases n <;> simp
   | none =>
     cases n with
-    | none => cases t <;> simp
+    | none =>
+      cases t with
+      | some t => simp
+      | none =>
+        obtain ⟨st2, e2, s2⟩ := anon_loop (cat := cat) _ _ (resolves_values hres) st1 hs
+        refine ⟨st2, ?_, s2⟩
+        simp only [analyzeQuoteColumn, e2, anonOf, List.flatMap_map]
     | some n =>
       by_cases hstar : n = "*"
       · subst hstar; cases t <;> simp
